@@ -671,23 +671,29 @@ def check_convergence(mbi, case, eng, last, probes):
         uni = mbi.GraphicalModel(mc.domain, list(mc.cliques), mc.total)
         uni.potentials = mbi.CliqueVector.zeros(mc.domain, uni.cliques)
         Lw, Lc, Lu = loss_of(mw, meas), loss_of(mc, meas), loss_of(uni, meas)
-        gap = Lw - Lc
-        allowed = 1e-2 * max(Lu - Lc, 0.0) + 1e-9 * Lu + 1e-12
+        gap = Lw - Lc                    # signed: "the same optimum" is symmetric
+        best = min(Lw, Lc)
+        allowed = 1e-2 * max(Lu - best, 0.0) + 1e-9 * Lu + 1e-12
         gaps.append((mult, Lw, Lc, Lu))
-        if gap <= allowed:
+        if gap < -allowed and max(theta_mag(mw), theta_mag(mc)) >= 1e9:
+            probes['convergence-skipped(theta>=1e9, F8)'] = probes.get('convergence-skipped(theta>=1e9, F8)', 0) + 1
+            return None
+        if abs(gap) <= allowed:
             if mult > 1:
                 probes['convergence-needed-escalation'] = probes.get('convergence-needed-escalation', 0) + 1
             return None
-        if len(gaps) >= 2 and gap <= 0.5 * (gaps[-2][1] - gaps[-2][2]):
+        if len(gaps) >= 2 and abs(gap) <= 0.5 * abs(gaps[-2][1] - gaps[-2][2]):
             continue        # still shrinking: slow, not stuck
         if len(gaps) >= 2:
             break
-    if len(gaps) == 3 and (gaps[-1][1] - gaps[-1][2]) <= 0.5 * (gaps[-2][1] - gaps[-2][2]):
+    if len(gaps) == 3 and abs(gaps[-1][1] - gaps[-1][2]) <= 0.5 * abs(gaps[-2][1] - gaps[-2][2]):
         probes['convergence-slow-but-shrinking'] = probes.get('convergence-slow-but-shrinking', 0) + 1
         return None
-    return Violation('c13-warm-converges', 'c13-warm-converges:' + solver + sat,
-                     'warm-started %s stays above the cold-start optimum: (iters x%d: L_warm=%.6g L_cold=%.6g L_uniform=%.6g) history of gaps %s; parameter spread of the warm starting point %.4g' % (
-                         solver, gaps[-1][0], gaps[-1][1], gaps[-1][2], gaps[-1][3], [(m, round(a - b, 6)) for m, a, b, _ in gaps], spread))
+    below = (gaps[-1][1] - gaps[-1][2]) < 0
+    return Violation('c13-warm-converges', 'c13-warm-converges:' + solver + (':warm-below-cold' if below else '') + sat,
+                     'warm-started %s %s: (iters x%d: L_warm=%.6g L_cold=%.6g L_uniform=%.6g) history of gaps %s; parameter spread of the warm starting point %.4g' % (
+                         solver, 'ends BELOW what a cold start reaches (the two do not optimise over the same set)' if below else 'stays above the cold-start optimum',
+                         gaps[-1][0], gaps[-1][1], gaps[-1][2], gaps[-1][3], [(m, round(a - b, 6)) for m, a, b, _ in gaps], spread))
 
 
 # ----------------------------------------------------------------------------------- shrinking
